@@ -838,6 +838,10 @@ func (p *Program) genFields(f *File, prefix string, max int, o Options, union bo
 					if o.StructConsts && fd.Req == ReqOptional && p.valuable(fd.Type, 1) && simrt.Flip("field.struct-default", 0.2) {
 						fd.Default = p.genValue(f, fd.Type, o, 1)
 					}
+				case "list", "set", "map":
+					if p.valuable(fd.Type, 1) && simrt.Flip("field.container-default", 0.15) {
+						fd.Default = p.genValue(f, fd.Type, o, 1)
+					}
 				}
 			}
 		}
